@@ -13,7 +13,7 @@ from . import world as W
 
 IN_BAD_TYPES = ["SELL", "FEE", "LOST", "MOVE", "FOO"]
 OUT_BAD_TYPES = ["BUY", "INTEREST", "AIRDROP", "MINING", "WAGES", "INCOME", "HARDFORK", "MOVE", "FOO"]
-TEXTS = ["abc", "1,5", {"t": "float_text", "v": "1.5"}]
+TEXTS = ["abc", "1,5", {"t": "float_text", "v": "1.5"}, "(2.5)", "- 3.0", "2.0-"]
 
 
 def _sheets_read(world, opts):
@@ -196,6 +196,33 @@ def enumerate_faults(world, opts, facts):
     return out
 
 
+def enumerate_oddities(world, opts):
+    """Inputs of debatable validity (tolerated by some spreadsheet importers, rejected by others). They are NOT C12 faults - whether
+    RP2 accepts or rejects them is not asserted anywhere - but they drive tolerance / repair / fallback code, which is where a
+    program starts writing things it should not. Used by C18 (confinement must hold either way) and as C17 history runs."""
+    out = []
+    sheets = list(_sheets_read(world, opts))
+    for s in sheets[:2]:
+        name = s["name"]
+        for t in s["tables"]:
+            tt = t["type"]
+            out.append({"class": "oddity", "kind": "kw_end_trailing_space", "sheet": name, "table": tt})
+            out.append({"class": "oddity", "kind": "kw_end_lowercase", "sheet": name, "table": tt})
+            out.append({"class": "oddity", "kind": "kw_begin_padded", "sheet": name, "table": tt})
+            if t["rows"]:
+                num = {"IN": "crypto_in", "OUT": "crypto_out_no_fee", "INTRA": "crypto_sent"}[tt]
+                out.append(_cellfault("oddity", "amount_as_currency_text", name, tt, 0, num, "$1,234.56"))
+                out.append(_cellfault("oddity", "amount_with_unit_text", name, tt, len(t["rows"]) - 1, num, "0.5 " + name))
+                out.append(_cellfault("oddity", "tz_abbreviation", name, tt, 0, "timestamp", "TZ_ABBREV"))
+                out.append(_cellfault("oddity", "date_only_timestamp", name, tt, 0, "timestamp", "DATE_ONLY"))
+                out.append(_cellfault("oddity", "huge_note", name, tt, 0, "notes", "n" * 70000))
+                out.append(_cellfault("oddity", "boolean_note", name, tt, 0, "notes", True))
+    for kind in ("config_crlf", "config_bom", "config_inline_comments", "config_uppercase_keys", "config_default_section", "config_trailing_garbage_line",
+                 "extra_sheet_with_table", "sheet_name_padded"):
+        out.append({"class": "oddity", "kind": kind})
+    return out
+
+
 # ------------------------------------------------------------------------------ application
 
 
@@ -252,11 +279,36 @@ def apply_fault(world, opts, fault):
         v = fault["value"]
         if v == "STRIP_TZ":
             v = _strip_tz(r["timestamp"])
+        elif v == "TZ_ABBREV":
+            v = W.parse_ts(r["timestamp"]).astimezone(W.UTC).strftime("%Y-%m-%d %H:%M:%S") + " UTC"
+        elif v == "DATE_ONLY":
+            v = W.parse_ts(r["timestamp"]).strftime("%Y-%m-%d")
         if fault["field"] in W.NUMERIC_FIELDS and isinstance(v, str):
             v = {"t": "float_text", "v": v}
         r[fault["field"]] = v
         for f2, v2 in (fault.get("also") or {}).items():
             r[f2] = v2
+    elif cls == "oddity":
+        if kind.startswith("kw_"):
+            grid_ops.append(fault)
+        elif kind == "extra_sheet_with_table":
+            world["extra_sheets"] = list(world.get("extra_sheets") or []) + ["UnlistedTable"]
+        elif kind == "sheet_name_padded":
+            world["sheets"][0]["name"] = world["sheets"][0]["name"] + " "
+        else:
+            text = W.render_config(world)
+            if kind == "config_crlf":
+                config_text = text.replace("\n", "\r\n")
+            elif kind == "config_bom":
+                config_text = "\ufeff" + text
+            elif kind == "config_inline_comments":
+                config_text = "\n".join((ln + " ; col" if "=" in ln and not ln.startswith("[") else ln) for ln in text.splitlines()) + "\n"
+            elif kind == "config_uppercase_keys":
+                config_text = "\n".join((ln.split("=", 1)[0].upper() + "=" + ln.split("=", 1)[1] if "=" in ln else ln) for ln in text.splitlines()) + "\n"
+            elif kind == "config_default_section":
+                config_text = "[DEFAULT]\nnote = shared\n\n" + text
+            elif kind == "config_trailing_garbage_line":
+                config_text = text + "\nthis line is not a key value pair\n"
     elif cls == "structure":
         if kind == "delete_sheet":
             world["sheets"] = [s for s in world["sheets"] if s["name"] != fault["sheet"]]
@@ -428,7 +480,13 @@ def _apply_grid_op(world, sheet, grid, index, op):
     width = world["ncols"]
     tt = op.get("table")
     grid = [list(r) for r in grid]
-    if kind == "blank_first_cell":
+    if kind == "kw_end_trailing_space":
+        grid[index[(tt, "end")]][0] = "TABLE END "
+    elif kind == "kw_end_lowercase":
+        grid[index[(tt, "end")]][0] = "table end"
+    elif kind == "kw_begin_padded":
+        grid[index[(tt, "begin")]][0] = " " + str(grid[index[(tt, "begin")]][0]) + " "
+    elif kind == "blank_first_cell":
         grid[index[(tt, op["row"])]][0] = None
     elif kind == "keyword_inside_table":
         grid.insert(index[(tt, op["row"])], [op["keyword"]] + [None] * (width - 1))
